@@ -2,6 +2,7 @@
   C05 — duality maps invert each other and define the regressive product.
 -/
 import Kingdon.Lemmas.Linear
+import Kingdon.Lemmas.MiscLemmas
 import Kingdon.Lemmas.Duality
 namespace Kingdon.C05
 open Finsupp
@@ -48,6 +49,14 @@ theorem regressive_is_dual_of_outer (c : Cfg) (h : c.admissible = true) (x y : M
 theorem pss_is_regressive_identity (c : Cfg) (h : c.admissible = true) (y : MV α) (hy : ∀ p ∈ y, p.1 < 2 ^ c.d) :
     den (rp c [(c.pss, (1 : α))] y) = den y ∧ den (rp c y [(c.pss, (1 : α))]) = den y :=
   ⟨rp_pss_left c (Cfg.adm_of_admissible c h) y hy, rp_pss_right c (Cfg.adm_of_admissible c h) y hy⟩
+
+/-- dual()/undual() select polarity for non-degenerate metrics (r = 0), Hodge duality when exactly one generator is
+    null (r = 1) and raise otherwise (table re-extracted from the source on every run) -/
+theorem dual_selects_kind :
+    (Gen.dualDispatch.filter (·.1 == "mv")) =
+      [("mv", "dual", 0, "polarity"), ("mv", "undual", 0, "unpolarity"), ("mv", "dual", 1, "hodge"),
+       ("mv", "undual", 1, "unhodge"), ("mv", "dual", 2, "raises:Exception"), ("mv", "undual", 2, "raises:Exception")] :=
+  dual_kind_selection
 
 /-- non-vacuity: a permuted sparse 3DPGA multivector has its keys inside the algebra -/
 example : ∀ p ∈ ([(9, (2 : Int)), (3, 5), (15, 1)] : MV Int), p.1 ≤ (Cfg.default [0, 1, 1, 1] 0).pss := by decide
